@@ -36,6 +36,9 @@ type c11Cell struct {
 	Subject model.Val      `json:"subject"` // failing subject (typed) or un-coercible input
 	Mode    string         `json:"mode"`
 	Lang    string         `json:"lang"` // default | i18n-en | i18n-es | i18n-none | i18n-unknown | i18n-es-MX (a language registered under a regional tag)
+	// Describe: the test (or Required) carries a MessageFunc that renders the issue it is handed; what it saw must be
+	// what the issue finally says
+	Describe bool `json:"describe,omitempty"`
 }
 
 func withLanguage(lang string, run func(opts []z.ExecOption)) {
@@ -243,6 +246,9 @@ func propC11Cell(c c11Cell) hh.Verdict {
 		in := c.Subject
 		switch c.What {
 		case "test":
+			if c.Describe {
+				c.Test.Opts.MsgFunc = model.DescribeMsgFunc
+			}
 			cc := c20Case{Kind: c.Kind, Elem: c.Elem, Test: c.Test, Subject: c.Subject, Mode: c.Mode}.toCase()
 			n = cc.Root
 			node = n
@@ -250,6 +256,9 @@ func propC11Cell(c c11Cell) hh.Verdict {
 			wantCode = model.ExpectedCode(c.Kind, c.Test)
 		case "required":
 			n.Req = true
+			if c.Describe {
+				n.ReqOpts = &model.Opts{MsgFunc: model.DescribeMsgFunc}
+			}
 			wantCode = "required"
 		case "not_nil":
 			n = &model.Node{Kind: model.KPtr, Req: true, Elem: n}
@@ -297,6 +306,13 @@ func propC11Cell(c c11Cell) hh.Verdict {
 	}
 	if strings.TrimSpace(is.Message) == "" {
 		return fail("empty message")
+	}
+	if c.Describe {
+		// "fully described" holds at the moment the test's own MessageFunc is asked for the message
+		if want := "seen:" + model.DescribeIssue(is); is.Message != want {
+			return fail("the test's MessageFunc was handed an issue saying %q, the issue finally says %q", strings.TrimPrefix(is.Message, "seen:"), strings.TrimPrefix(want, "seen:"))
+		}
+		return hh.Verdict{Nontrivial: true, Classes: []string{"what:" + c.What, "mode:" + c.Mode, "described-by-messagefunc"}}
 	}
 	if strings.Contains(is.Message, "{{") || strings.Contains(is.Message, "}}") {
 		return fail("unresolved placeholder in message %q", is.Message)
@@ -540,6 +556,16 @@ func TestC11(t *testing.T) {
 		"Bool True()/False(): code eq or true/false accepted (documentation names both); the value reference of decode failures is not asserted (the body is consumed)")
 	defer h.Finish()
 	hh.Enumerate(h, "catalogue", c11Cells, propC11Cell)
+	// the same catalogue with a MessageFunc on the test that renders what it is handed (default formatter cells only)
+	hh.Enumerate(h, "catalogue-described", func(yield func(c11Cell)) {
+		c11Cells(func(c c11Cell) {
+			if (c.What == "test" || c.What == "required") && c.Lang == "default" && c.Kind != model.KCustom && !(c.What == "test" && c.Kind == model.KBool && c.Test.Name != "func") {
+				// (Bool's True / False / EQ take no options)
+				c.Describe = true
+				yield(c)
+			}
+		})
+	}, propC11Cell)
 	hh.Enumerate(h, "decode-failure-sequences", func(yield func(c11Seq)) {
 		for _, ptr := range []bool{false, true} {
 			for _, fe := range []string{"zjson", "zhttp-json"} {
